@@ -101,3 +101,16 @@ theorem operate_arg_fw_err (t : Sigs α) (afIn afOut : String) (ka : KArg α) (v
   simp only [hp, h1, hres, hs, Bool.false_eq_true, if_false, hv, hfw]
 end shortexec
 end TV.Filter
+
+namespace TV.Filter
+section again
+variable {α : Type} [Field α]
+
+/-- dividing a list by its sum again and again is dividing it once (the sum is 1 after the first time) -/
+theorem normaliseN_of_pos (k : List α) (hs : k.sum ≠ 0) : ∀ n, 0 < n → normaliseN k n = normalise k
+  | 1, _ => rfl
+  | n + 2, _ => by
+    rw [normaliseN, normaliseN_of_pos (normalise k) (by rw [normalise_sum k hs]; exact one_ne_zero) (n + 1) (Nat.succ_pos _),
+      normalise_idem k hs]
+end again
+end TV.Filter
